@@ -506,7 +506,12 @@ int statx(int dirfd, const char *path, int flags, unsigned mask, struct statx *b
     struct callctx c; begin_call(&c, C_STAT);
     int res, err = 0;
     if (c.f && c.f->kind == F_ERRNO) { res = -1; err = (int)c.f->a; }
-    else { res = r_statx(dirfd, path, flags, mask, buf); err = errno; }
+    else {
+        res = r_statx(dirfd, path, flags, mask, buf); err = errno;
+        /* F_SHORT on a stat: the size reported for a regular file is at most a bytes although the
+           content is all there (procfs-like files, FUSE, a file still growing): st_size is a hint */
+        if (res == 0 && c.f && c.f->kind == F_SHORT && S_ISREG(buf->stx_mode) && buf->stx_size > c.f->a) buf->stx_size = c.f->a;
+    }
     end_call(&c, byfd ? 0 : path, byfd ? dirfd : -1, 0, res, err, flags);
     errno = err; return res;
 }
@@ -537,13 +542,15 @@ int lstat64(const char *path, struct stat64 *st)
 int fstat(int fd, struct stat *st)
 {
     RESOLVE(fstat);
-    STAT_PROLOGUE(fd >= 0 && fd < FD_MAX && g_fdcls[fd], r_fstat(fd, st)) { res = r_fstat(fd, st); err = errno; }
+    STAT_PROLOGUE(fd >= 0 && fd < FD_MAX && g_fdcls[fd], r_fstat(fd, st)) { res = r_fstat(fd, st); err = errno;
+        if (res == 0 && c.f && c.f->kind == F_SHORT && S_ISREG(st->st_mode) && (uint64_t)st->st_size > c.f->a) st->st_size = (off_t)c.f->a; }
     end_call(&c, 0, fd, 0, res, err, 0); errno = err; return res;
 }
 int fstat64(int fd, struct stat64 *st)
 {
     RESOLVE(fstat64);
-    STAT_PROLOGUE(fd >= 0 && fd < FD_MAX && g_fdcls[fd], r_fstat64(fd, st)) { res = r_fstat64(fd, st); err = errno; }
+    STAT_PROLOGUE(fd >= 0 && fd < FD_MAX && g_fdcls[fd], r_fstat64(fd, st)) { res = r_fstat64(fd, st); err = errno;
+        if (res == 0 && c.f && c.f->kind == F_SHORT && S_ISREG(st->st_mode) && (uint64_t)st->st_size > c.f->a) st->st_size = (off64_t)c.f->a; }
     end_call(&c, 0, fd, 0, res, err, 0); errno = err; return res;
 }
 int fstatat(int dirfd, const char *path, struct stat *st, int flags)
